@@ -72,6 +72,7 @@ type Run struct {
 
 	start      time.Time
 	deadline   time.Time
+	stopped    bool
 	parforCall atomic.Int64
 
 	evals       atomic.Int64
@@ -201,6 +202,9 @@ func (r *Run) Fail(c Case, f *Failure) {
 	c.Property = r.ID
 	r.mu.Lock()
 	defer r.mu.Unlock()
+	if r.stopped {
+		return
+	}
 	for _, k := range r.knowns {
 		if k.sig == f.Sig {
 			r.knownHits[f.Sig]++
@@ -211,6 +215,13 @@ func (r *Run) Fail(c Case, f *Failure) {
 	v, ok := r.viol[f.Sig]
 	if !ok {
 		r.viol[f.Sig] = &violation{Case: c, Sig: f.Sig, Expected: f.Expected, Observed: f.Observed, Count: 1, size: sz}
+		if os.Getenv("VERIF_FAIL_FAST") != "" {
+			// mutation analysis only (tools/mutants.sh): the first violation ends the run; the witness is
+			// not minimised and the evidence of such a run is not kept
+			r.stopped = true
+			fmt.Printf("VIOLATION property=%s replay=-\n  sig=%s\n  case=%s\n  expected: %s\n  observed: %s\n", r.ID, f.Sig, mustJSON(c), f.Expected, f.Observed)
+			os.Exit(1)
+		}
 		return
 	}
 	v.Count++
